@@ -151,6 +151,13 @@ def run(ctx):
         c10.flat(t, [])
         others.append(c10.to_qml(t) + "\n")
         ctx.dist("naming")
+    # attached properties written through the layout base class AND through the concrete layout class on one object (two spellings that may
+    # name one attached type): whatever is done with them, it is done the same way every time
+    for lay, a1, a2 in (("QGridLayout", "QLayout.row: 1", "QGridLayout.column: 2"), ("QGridLayout", "QGridLayout.row: 1", "QLayout.column: 2"),
+                        ("QGridLayout", "QLayout.row: -1", "QGridLayout.column: 2"), ("QVBoxLayout", "QLayout.rowStretch: 2", "QVBoxLayout.alignment: Qt.AlignRight"),
+                        ("QFormLayout", "QLayout.row: 1", "QFormLayout.column: 1"), ("QHBoxLayout", "QBoxLayout.columnStretch: 3", "QLayout.alignment: Qt.AlignTop")):
+        others.append("import qmluic.QtWidgets\nQWidget {\n    %s {\n        QLabel { %s; %s }\n        QLabel { %s; %s; text: \"t\" }\n        QLabel { }\n    }\n}\n" % (lay, a1, a2, a2, a1))
+        ctx.dist("attached-two-spellings")
     for _ in others:
         ctx.dist("corpus/mutant")
     srcs = wide + others
